@@ -253,7 +253,8 @@ Record vfacts (data : list Z) (a : option (list Z)) (b : list Z) (w h : Z) (isl 
   vf_bb : bytes_ok b;
   vf_ab : obytes_ok a;
   vf_len : len b + olen a <= len data;
-  vf_lossy_alpha : a <> None -> isl = false }.
+  vf_lossy_alpha : a <> None -> isl = false;
+  vf_len8 : a <> None -> 8 + olen a + len b <= len data /\ firstn 4 data = T_ALPH }.
 
 Lemma bytes_ok_inv a l : bytes_ok (a :: l) -> 0 <= a < 256 /\ bytes_ok l.
 Proof. intros H. inversion H; subst. split; auto. Qed.
@@ -300,6 +301,8 @@ Proof.
     + cbn. apply bytes_ok_firstn. exact Hb.
     + cbn [olen]. rewrite !len_cons. unfold len at 2. rewrite firstn_length.
       unfold glen in Hn. fold (len body) in Hn. unfold len in *. lia.
+    + intros _. split; [|reflexivity]. cbn [olen]. rewrite !len_cons. unfold len at 1. rewrite firstn_length.
+      unfold glen in Hn. fold (len body) in Hn. unfold len in *. lia.
   - (* no prefix *)
     injection Ep as <- <-.
     destruct (bits_facts data Hb Hv) as (w & h & isl & abit & Hbf).
@@ -312,6 +315,7 @@ Proof.
       destruct (Z.eqb_spec (rd32 [a0; a1; a2; a3]) FCC_ALPH); [contradiction|reflexivity].
     + exact I.
     + cbn [olen]. lia.
+    + intros H. contradiction.
     + intros H. contradiction.
 Qed.
 
@@ -473,7 +477,7 @@ Lemma anmf_one f d fuel tail :
     vframe_of_fi fi = Some (vframe_of true f).
 Proof.
   intros [Hb Hl Hv Hox Hoy Hdur] Hn. destruct f as [data fo]. cbn [f_data f_opts] in *.
-  destruct (valid_frame_facts data Hb Hv) as (a & b & w & h & isl & abit & [Hparts Hsplit Hbf Hbb Hab Hlen _]).
+  destruct (valid_frame_facts data Hb Hv) as (a & b & w & h & isl & abit & [Hparts Hsplit Hbf Hbb Hab Hlen _ _]).
   pose proof (bf_w _ _ _ _ _ Hbf) as Hw. pose proof (bf_h _ _ _ _ _ Hbf) as Hh.
   assert (Hd : frame_dims data = (w, h)) by (rewrite frame_dims_eq, Hsplit; apply (bf_dims _ _ _ _ _ Hbf)).
   rewrite (write_anmf_eq data fo a b w h); auto; try lia.
@@ -630,7 +634,7 @@ Qed.
 Lemma bytes_ok_write_anmf f : aframe_ok f -> bytes_ok (write_anmf f) /\ 8 <= len (write_anmf f).
 Proof.
   intros [Hb Hl Hv Hox Hoy Hdur]. destruct f as [data fo]. cbn [f_data f_opts] in *.
-  destruct (valid_frame_facts data Hb Hv) as (a & b & w & h & isl & abit & [Hparts Hsplit Hbf Hbb Hab Hlen _]).
+  destruct (valid_frame_facts data Hb Hv) as (a & b & w & h & isl & abit & [Hparts Hsplit Hbf Hbb Hab Hlen _ _]).
   pose proof (bf_w _ _ _ _ _ Hbf) as Hw. pose proof (bf_h _ _ _ _ _ Hbf) as Hh.
   assert (Hd : frame_dims data = (w, h)) by (rewrite frame_dims_eq, Hsplit; apply (bf_dims _ _ _ _ _ Hbf)).
   rewrite (write_anmf_eq data fo a b w h); auto; try lia.
@@ -785,6 +789,7 @@ Proof.
   destruct (Z.eqb_spec (len (m_frames m)) 0) as [|Hne]; [discriminate|].
   match goal with |- context [if (if is_animated m then ?a else ?b) then _ else _] =>
     destruct (if is_animated m then a else b) eqn:Ecnt end; [discriminate|].
+  match goal with |- context [if ?c then Err E_validate else _] => destruct c end; [discriminate|].
   destruct (canvas_size m) as [cw ch] eqn:Ecs. cbn [fst snd].
   match goal with |- context [if ?c then Err E_validate else _] => destruct c eqn:Elim end; [discriminate|].
   destruct (forallb _ (m_frames m)) eqn:Efa; [|discriminate]. intros _.
@@ -1109,7 +1114,7 @@ Proof.
   { unfold is_animated in Hanim. rewrite Hf in Hanim. apply orb_false_iff in Hanim. destruct Hanim as [_ Ha].
     cbn [existsb] in Ha. rewrite orb_false_r in Ha. lia. }
   destruct f as [data fo]. cbn [f_data f_opts] in *.
-  destruct (valid_frame_facts data Hb Hv) as (a & b & w & h & isl & abit & [Hparts Hsplit Hbf Hbb Hab Hlen _]).
+  destruct (valid_frame_facts data Hb Hv) as (a & b & w & h & isl & abit & [Hparts Hsplit Hbf Hbb Hab Hlen _ _]).
   destruct (len_img_chunks a b ltac:(lia) Hab) as (Hlen_img & _ & _).
   unfold assemble_extended in Hasm. rewrite Hanim, Hf in Hasm.
   destruct (canvas_size m) as [cw ch] eqn:Ecs. cbn [fst snd] in *.
@@ -1314,4 +1319,22 @@ Proof.
     split; [exact H1|]. split; [exact H2|]. rewrite H3. exact H4.
   - destruct (still_ext_roundtrip m bs Hm Han Hx Ha) as (H1 & H2 & d & H3 & H4).
     split; [exact H1|]. split; [exact H2|]. rewrite H3. exact H4.
+Qed.
+
+(** ---- metadata larger than maxMetadataSize (finding "meta-too-large") ----
+    SetICCProfile / SetEXIF / SetXMP store any blob (only AddChunk checks the limit) and
+    validate / Assemble never look at the blob sizes, but the demuxer refuses such a
+    chunk: a muxer-accepted input whose file the demuxer rejects.  This is why [op_okb]
+    bounds metadata by maxMetadataSize.  (Replayed on the Go code by harness/c14 in the
+    thorough tier; a kernel-evaluated witness would need a 100 MB list.) *)
+Lemma meta_too_large_demux_rejects d id n p rest :
+  (id = FCC_ICCP \/ id = FCC_EXIF \/ id = FCC_XMP) -> len p > maxMetadataSize ->
+  ext_dispatch d (mkchunk id n p) rest = Err E_meta.
+Proof.
+  intros Hid Hp. assert (Hgt : (len p >? maxMetadataSize) = true) by lia.
+  destruct Hid as [->|[->| ->]]; unfold ext_dispatch; cbn [c_id c_data].
+  - change (FCC_ICCP =? FCC_ICCP) with true. cbv iota. rewrite Hgt. reflexivity.
+  - change (FCC_EXIF =? FCC_ICCP) with false. change (FCC_EXIF =? FCC_EXIF) with true. cbv iota. rewrite Hgt. reflexivity.
+  - change (FCC_XMP =? FCC_ICCP) with false. change (FCC_XMP =? FCC_EXIF) with false.
+    change (FCC_XMP =? FCC_XMP) with true. cbv iota. rewrite Hgt. reflexivity.
 Qed.
